@@ -163,6 +163,8 @@ type world struct {
 	firstTrigAtEnq    atomic.Int64 // enqReturned when the first trigger was sent (-1: none sent)
 	flipActions       atomic.Int64
 	twinBlocks        atomic.Int64
+	oddLines          atomic.Int64
+	oddSubmissions    atomic.Int64
 	submitsAfterPlain atomic.Int64
 	globalOnlyChanges int
 	tracerObs         []addTracerObs
@@ -240,10 +242,17 @@ func (a *recAdapter) Write(msg log.Message, dup uint64) {
 	a.inWrite.Store(true)
 	defer a.inWrite.Store(false)
 	e := adEntry{Seq: w.tick(), Text: msg.Text(), Sev: int(msg.Severity()), File: msg.File(), Line: msg.LineNumber(), Dup: dup}
-	wantFmt := strings.Contains(e.Text, "T")
+	// formatted output: for everything that can be a tracer submission (texts of
+	// tracer blocks contain a T; main lines without identity are empty or blank), and
+	// for a few merged lines. Never for texts with line breaks (plain lines only): the
+	// output is split at line breaks to find the carried lines.
+	wantFmt := strings.Contains(e.Text, "T") || strings.TrimSpace(e.Text) == ""
 	if dup > 0 && a.fmtSamples < 3 {
 		a.fmtSamples++
 		wantFmt = true
+	}
+	if strings.ContainsAny(e.Text, "\r\n") {
+		wantFmt = false
 	}
 	if wantFmt {
 		// the only way to see the lines of a tracer submission from an adapter
@@ -422,6 +431,9 @@ func (p *producer) runPhase(phase int, nops int) {
 				kind = "tracer"
 			}
 		}
+		if k2 := r.Intn(100); k2 < 5 || (w.sc.Dense && k2 < 9) {
+			kind = "odd"
+		}
 		if w.sc.Family == "twin" && k%3 == 0 {
 			kind = "twin"
 		} else if w.sc.Tracers && w.sc.Dense && k >= 97 {
@@ -430,7 +442,7 @@ func (p *producer) runPhase(phase int, nops int) {
 		if kind == "tracer" && !w.sc.Tracers {
 			kind = "uniq"
 		}
-		if flip && kind == "twin" {
+		if flip && (kind == "twin" || kind == "odd") {
 			kind = "uniq"
 		}
 		if flip && kind != "tracer" {
@@ -510,8 +522,118 @@ func (p *producer) runPhase(phase int, nops int) {
 			ops += p.tracerBlock(phase)
 		case "twin":
 			ops += p.twinBlock(phase)
+		case "odd":
+			ops += p.oddBlock(phase)
 		}
 	}
+}
+
+// oddBlock: message texts a logger must cope with like with any other: empty, blank,
+// line breaks only, trailing / embedded line breaks, very long -- at every severity,
+// plain and inside tracers. Texts without an identity are told apart by call site and
+// counted (they are "shared" texts for the oracle); the others keep their id prefix.
+func (p *producer) oddBlock(phase int) int {
+	w := p.w
+	r := p.rng
+	certain := func(site int) bool { return w.certainlyEnabled(phase, sitePkg(site), siteLvl(site)) }
+	blank := []string{"", "", "", " ", "\t", "   ", "\n", "\r\n", "\n\n"}
+	n := 0
+	switch k := r.Intn(8); {
+	case k <= 2:
+		// no identity; also repeated (merged) and directly followed by other lines
+		s := p.randSite(false)
+		if r.Chance(1, 2) {
+			s = siteID(sitePkg(s), siteVariant(s), r.Range(4, nLevels))
+		}
+		text := blank[r.Intn(len(blank))]
+		for i, m := 0, r.Range(1, 3); i < m && !w.shouldStop(); i++ {
+			p.logLine(phase, s, text, certain(s))
+			n++
+		}
+		w.oddLines.Add(int64(n))
+	case k == 3 || k == 4:
+		s := p.randSite(false)
+		p.uniq++
+		tail := []string{"\n", "\r\n", "\nsecond line", "\n\n", " \n "}[r.Intn(5)]
+		p.logLine(phase, s, fmt.Sprintf("%s#%d%s", p.name(), p.uniq, tail), certain(s))
+		n++
+		w.oddLines.Add(1)
+	case k == 5:
+		s := p.randSite(false)
+		p.uniq++
+		p.logLine(phase, s, fmt.Sprintf("%s#%d %s", p.name(), p.uniq, strings.Repeat("x", r.Range(1000, 40000))), certain(s))
+		n++
+		w.oddLines.Add(1)
+	default:
+		if !w.sc.Tracers {
+			return p.oddBlockPlainFallback(phase)
+		}
+		// tracer with odd collected lines; in half of the cases the main (last) line
+		// has no identity either
+		pkg := r.Intn(nPkgs)
+		_, tr := addTracer(pkg, context.Background())
+		w.tracerObsMu.Lock()
+		w.tracerObs = append(w.tracerObs, addTracerObs{Phase: phase, Pkg: pkg, Nil: tr == nil})
+		w.tracerObsMu.Unlock()
+		if tr == nil {
+			return p.oddBlockPlainFallback(phase)
+		}
+		p.trSeq++
+		tid := fmt.Sprintf("%sT%d", p.name(), p.trSeq)
+		var trace []trLine
+		add := func(text string, lvlMin int) {
+			t := trLine{0, siteID(pkg, 2+r.Intn(2), r.Range(lvlMin, nLevels)), text}
+			emit(t.Site, t.Text, tr)
+			trace = append(trace, t)
+		}
+		add(tid+"o#0", 1) // always one collected line with an identity
+		for i, m := 1, r.Range(1, 4); i <= m; i++ {
+			switch r.Intn(3) {
+			case 0:
+				add([]string{"", " ", "\t"}[r.Intn(3)], 1)
+			case 1:
+				add(fmt.Sprintf("%so#%d %s", tid, i, strings.Repeat("y", r.Range(500, 5000))), 1)
+			default:
+				add(fmt.Sprintf("%so#%d", tid, i), 1)
+			}
+		}
+		if r.Chance(1, 2) {
+			add([]string{"", "", " "}[r.Intn(3)], r.Range(1, 4)) // main line: empty or blank, often warning or above
+		} else {
+			add(tid+"o$", 1)
+		}
+		main := trace[len(trace)-1]
+		if w.shouldStop() {
+			return len(trace)
+		}
+		p.state.Store(stInCall)
+		i := p.addRec(lineRec{Call: w.tick(), Phase: phase, Kind: kSubmit, Site: main.Site, Text: main.Text, Trace: trace})
+		tr.Submit()
+		ret := w.tick()
+		p.mu.Lock()
+		p.recs[i].Ret = ret
+		p.mu.Unlock()
+		w.enqReturned.Add(1)
+		w.returnedAll.Add(1)
+		p.state.Store(stRun)
+		n = len(trace)
+		w.oddSubmissions.Add(1)
+	}
+	// something identifiable right behind it (what a writer that stumbles loses)
+	if !w.shouldStop() {
+		s := p.randSite(false)
+		p.uniq++
+		p.logLine(phase, s, fmt.Sprintf("%s#%d", p.name(), p.uniq), certain(s))
+		n++
+	}
+	return n
+}
+
+func (p *producer) oddBlockPlainFallback(phase int) int {
+	s := siteID(p.rng.Intn(nPkgs), p.rng.Intn(nVariants), p.rng.Range(4, nLevels))
+	p.logLine(phase, s, "", p.w.certainlyEnabled(phase, sitePkg(s), siteLvl(s)))
+	p.w.oddLines.Add(1)
+	return 1
 }
 
 // twinBlock: a plain line through a tracer-method call site with a nil tracer (the
